@@ -329,6 +329,12 @@ type client struct {
 	// mu before returning. There is no background goroutine.
 	mu   sync.Mutex
 	conn io.ReadWriter
+	// serialErr is the error of the first failed call in fully-serialized
+	// mode. After a failed write or read the stream is in an undefined
+	// state: the reply to the failed request may still arrive, and the
+	// next caller would read it as its own. Like the pipelined client,
+	// the serialized client therefore fails all subsequent calls.
+	serialErr error
 }
 
 // NewClient returns an Agent that talks to an ssh-agent process over
@@ -386,6 +392,15 @@ func (c *client) callRaw(req []byte) (reply []byte, err error) {
 func (c *client) serialCall(req []byte) (reply []byte, err error) {
 	c.mu.Lock()
 	defer c.mu.Unlock()
+
+	if c.serialErr != nil {
+		return nil, c.serialErr
+	}
+	defer func() {
+		if err != nil {
+			c.serialErr = err
+		}
+	}()
 
 	msg := make([]byte, 4+len(req))
 	binary.BigEndian.PutUint32(msg, uint32(len(req)))
